@@ -15,7 +15,7 @@ import rs2lean
 
 SLICE = ['GetRange', 'GetRangeFrom', 'GetRangeTo', 'GetRangeFull', 'GetRangeIncl', 'GetRangeToIncl', 'GetBounds']
 TOKEN = ['FromEncoded', 'TokenNew', 'Decoded']
-INDEX = ['ForLen', 'ForLenIncl', 'ForLenUnchecked']
+INDEX = ['ForLen', 'ForLenIncl', 'ForLenUnchecked', 'IndexFromStr']
 SPLITS = ['SplitFront', 'SplitAt', 'SplitBack', 'Parent']
 RELS = ['IsRoot', 'SplitAt', 'StartsWith', 'StripPrefix', 'EndsWith', 'StripSuffix', 'Intersection']
 ACCESS = ['IsRoot', 'Count', 'Back', 'Front']
@@ -34,7 +34,9 @@ PROP_FUNCS = {
     'C01': _u(['ValidateBytes'], TOKEN, SLICE, POINTER, BUF),
     'C11': _u(BUF, ['IsRoot']),
     'C02': ['ValidateBytes'], 'C14': ['ValidateBytes'],
-    'C05': WALKS, 'C09': WALKS, 'C15': WALKS, 'C08': WALKS, 'C10': WALKS,
+    'C05': _u(WALKS, ['IndexFromStr', 'ForLen']), 'C09': _u(WALKS, ['IndexFromStr', 'ForLen']), 'C15': _u(WALKS, ['IndexFromStr', 'ForLen']),
+    'C08': _u(WALKS, ['IndexFromStr', 'ForLen']), 'C10': _u(WALKS, ['IndexFromStr', 'ForLen']),
+    'C06': ['IndexFromStr', 'ForLenIncl'], 'C07': ['IndexFromStr', 'ForLenIncl'],
     'C03': TOKEN, 'C04': _u(ACCESS, ['FromTokens']), 'C12': _u(SLICE, SPLITS), 'C13': _u(RELS, ['Append']), 'C16': INDEX,
     'C19': _u(TOKEN, SLICE, SPLITS, RELS, ACCESS),
 }
@@ -54,6 +56,7 @@ TIE_THEOREMS = {
     'Intersection': ['Jp.Tie.intersection_eq', 'Jp.Tie.intersection_loop_eq'],
     'FromTokens': ['Jp.Tie.from_tokens_eq'], 'PushFront': ['Jp.Tie.push_front_eq'], 'PushBack': ['Jp.Tie.push_back_eq'],
     'PopBack': ['Jp.Tie.pop_back_eq'], 'Append': ['Jp.Tie.append_eq'], 'Clear': ['Jp.Tie.clear_eq'],
+    'IndexFromStr': ['Jp.Tie.index_from_str_eq'],
     'ParseIndex': ['Jp.Tie.parse_index_eq'], 'ResolveJson': ['Jp.Tie.resolve_json_eq', 'Jp.Tie.resolve_json_loop'],
     'ResolveMutJson': ['Jp.Tie.resolve_mut_json_eq'], 'ResolveToml': ['Jp.Tie.resolve_toml_eq'], 'ResolveMutToml': ['Jp.Tie.resolve_mut_toml_eq'],
 }
@@ -63,7 +66,8 @@ TRANSPORT_THEOREMS = {
                        'gen_from_encoded_no_panic', 'gen_new_encoded', 'gen_decoded_new', 'gen_decoded_eq_dec',
                        'gen_new_fresh_iff', 'gen_decoded_fresh_iff'],
     'TransportSlice': ['gen_bounds_spec', 'gen_range_spec', 'gen_no_panic', 'gen_excluded_max_none'],
-    'TransportIndex': ['gen_for_len_exact', 'gen_for_len_incl_exact', 'gen_for_len_unchecked_exact'],
+    'TransportIndex': ['gen_for_len_exact', 'gen_for_len_incl_exact', 'gen_for_len_unchecked_exact', 'gen_from_str_eq_spec',
+                       'gen_from_str_ok_iff', 'gen_from_str_no_panic', 'gen_display_from_str'],
     'TransportPointer': ['gen_starts_with_iff', 'gen_strip_prefix_iff', 'gen_strip_suffix_iff', 'gen_ends_with_iff',
                          'gen_intersection_lcp', 'gen_intersection_comm', 'gen_split_at_iff', 'gen_split_at_concat'],
     'TransportBuf': ['gen_buf_step_eq', 'gen_step_refines', 'gen_from_tokens_tokens', 'gen_append_tokens', 'gen_append_root'],
